@@ -38,6 +38,9 @@ partial def loop (h : IO.FS.Stream) (out : IO.FS.Stream) (st : St) : IO St := do
     out.putStrLn s!"MONITOR\t{r.prop}\t{n}\t{op}\timpl={impl}\t{why}"
     st := { st with mon := st.mon + 1 }
   | none => pure ()
+  for (pr, why) in r.more do
+    out.putStrLn s!"MONITOR\t{pr}\t{n}\t{op}\timpl={impl}\t{why}"
+    st := { st with mon := st.mon + 1 }
   loop h out st
 
 def main : IO UInt32 := do
